@@ -2,7 +2,7 @@
    (__len__, __eq__, sign, complex_conj, commutes_with, multiply, adjoint_map, |, ^, @, is_identity, get_index,
    get_diagonal_index, tensor and the in-place edits set_substring and inc), run on the object
    freshly built from a Pauli string, are equal to the code-shaped model in Model/Pauli.v that C04's theorems are about. *)
-From PauLie Require Import Pauli PauliBits MatrixT.
+From PauLie Require Import Pauli PauliBits MatrixT Collection ParserT.
 From PauLieRefine Require Import PySem.
 From PauLieGen Require Import PSGen.
 From Coq Require Import Lia ZifyBool.
@@ -281,6 +281,84 @@ Theorem gen_apply_edit o e : apply_edit o e =
   match e with SetSub s sub => snd (py_PS_set_substring o s (fresh sub)) | Inc => snd (py_PS_inc o) end.
 Proof. destruct e as [s sub|]; [rewrite gen_set_substring|rewrite gen_inc]; reflexivity. Qed.
 
+(* ---------- copies, concatenation, padding, substrings, order ---------- *)
+Theorem gen_copy o : py_PS_copy o = fresh_bits (obits o) /\ py_PS_copy_dunder o = fresh_bits (obits o).
+Proof. split; reflexivity. Qed.
+Theorem gen_add o1 o2 : py_PS_add o1 o2 = FRet (fresh_bits (obits o1 ++ obits o2)).
+Proof. unfold py_PS_add. cbv zeta. rewrite gen_tensor. reflexivity. Qed.
+Lemma bits_identity k : bits (identity k) = repeat false (2 * k).
+Proof. unfold identity. induction k as [|k IH]; [reflexivity|]. replace (2 * S k)%nat with (S (S (2 * k))) by lia. cbn [repeat bits flat_map app xb zb]. f_equal. f_equal. exact IH. Qed.
+Lemma bits_app p q : bits (p ++ q) = bits p ++ bits q.
+Proof. unfold bits. apply flat_map_app. Qed.
+(* expand(n): the string padded with identities to length n; ValueError when it is longer than n
+   (this is the contract Refine/CollRefine.v assumes for p.expand(n)) *)
+Theorem gen_expand p n : fmap text (py_PS_expand (fresh p) n) =
+  if Z.of_nat (length p) <=? n then FRet (pad (Z.to_nat n) p) else FRaised verr.
+Proof.
+  unfold py_PS_expand. rewrite gen_len. destruct (Z.leb_spec (Z.of_nat (length p)) n) as [H|H].
+  - assert (G : (0 <=? n - Z.of_nat (length p)) = true) by lia. rewrite G. rewrite gen_add. cbn [retcall finish fmap]. f_equal.
+    unfold text, fresh, fresh_bits, pad. cbn [obits].
+    replace (Z.to_nat (2 * (n - Z.of_nat (length p)))) with (2 * (Z.to_nat n - length p))%nat by lia.
+    rewrite <- bits_identity, <- bits_app. apply of_bits_bits.
+  - assert (G : (0 <=? n - Z.of_nat (length p)) = false) by lia. rewrite G. reflexivity.
+Qed.
+(* item assignment is set_substring *)
+Theorem gen_setitem o pos sub : py_PS_setitem o pos (fresh sub) =
+  (if snd (set_substring o pos sub) then FNone else FRaised EIndex, fst (set_substring o pos sub)).
+Proof. unfold py_PS_setitem. rewrite gen_set_substring. destruct (set_substring o pos sub) as [o' ok]. destruct ok; reflexivity. Qed.
+Theorem gen_count p : py_PS_get_count_non_trivially (fresh p) = weight_code p.
+Proof. reflexivity. Qed.
+(* the order of PauliStrings (bitarray order) is the model's pstr_ltb: this is the contract CollRefine assumes for list.sort() *)
+Lemma bits_ltb_pstr : forall p q, bits_ltb (bits p) (bits q) = pstr_ltb p q.
+Proof.
+  induction p as [|a p IH]; destruct q as [|b q]; [reflexivity|destruct b; reflexivity|destruct a; reflexivity|].
+  change (bits (a :: p)) with (xb a :: zb a :: bits p). change (bits (b :: q)) with (xb b :: zb b :: bits q).
+  cbn [bits_ltb pstr_ltb]. rewrite IH. destruct a, b; reflexivity.
+Qed.
+Lemma bits_eqb_pstr p q : bits_eqb (bits p) (bits q) = pstr_eqb p q.
+Proof.
+  destruct (bits_eqb (bits p) (bits q)) eqn:E.
+  - apply bits_eqb_eq, bits_inj in E. subst. symmetry. apply pstr_eqb_eq. reflexivity.
+  - symmetry. apply not_true_iff_false. intros H. apply pstr_eqb_eq in H. subst. assert (X : bits_eqb (bits q) (bits q) = true) by (apply bits_eqb_eq; reflexivity). congruence.
+Qed.
+Theorem gen_order p q :
+  py_PS_lt (fresh p) (fresh q) = FRet (pstr_ltb p q) /\ py_PS_gt (fresh p) (fresh q) = FRet (pstr_ltb q p) /\
+  py_PS_le (fresh p) (fresh q) = FRet (negb (pstr_ltb q p)) /\ py_PS_ge (fresh p) (fresh q) = FRet (negb (pstr_ltb p q)) /\
+  py_PS_ne (fresh p) (fresh q) = FRet (negb (pstr_eqb p q)).
+Proof.
+  unfold py_PS_lt, py_PS_gt, py_PS_le, py_PS_ge, py_PS_ne. cbv zeta. cbn [finish]. change (obits (fresh p)) with (bits p). change (obits (fresh q)) with (bits q).
+  rewrite !bits_ltb_pstr, bits_eqb_pstr. repeat split; reflexivity.
+Qed.
+(* substrings: letters start .. start+length-1 (clamped to the string, as Python slices are) *)
+Lemma skipn_bits : forall p s, skipn (2 * s) (bits p) = bits (skipn s p).
+Proof.
+  induction p as [|a p IH]; intros s; [rewrite !skipn_nil; reflexivity|]. destruct s as [|s]; [reflexivity|].
+  replace (2 * S s)%nat with (S (S (2 * s))) by lia. change (bits (a :: p)) with (xb a :: zb a :: bits p). cbn [skipn]. apply IH.
+Qed.
+Lemma firstn_bits : forall p l, firstn (2 * l) (bits p) = bits (firstn l p).
+Proof.
+  induction p as [|a p IH]; intros l; [rewrite !firstn_nil; reflexivity|]. destruct l as [|l]; [reflexivity|].
+  replace (2 * S l)%nat with (S (S (2 * l))) by lia. change (bits (a :: p)) with (xb a :: zb a :: bits p). cbn [firstn]. change (bits (a :: firstn l p)) with (xb a :: zb a :: bits (firstn l p)). rewrite IH. reflexivity.
+Qed.
+Theorem gen_get_substring p s l : text (py_PS_get_substring (fresh p) (Z.of_nat s) (Z.of_nat l)) = firstn l (skipn s p) /\
+  text (py_PS_getitem (fresh p) (Z.of_nat s)) = firstn 1 (skipn s p).
+Proof.
+  assert (G : forall l, text (py_PS_get_substring (fresh p) (Z.of_nat s) (Z.of_nat l)) = firstn l (skipn s p)).
+  { clear l. intros l. unfold py_PS_get_substring, text, fresh, fresh_bits, slice_range, clamp. cbn [obits]. rewrite bits_length.
+    assert (E1 : (2 * Z.of_nat s <? 0) = false) by lia. assert (E2 : (2 * Z.of_nat s + 2 * Z.of_nat l <? 0) = false) by lia. rewrite E1, E2.
+    replace (Z.to_nat (2 * Z.of_nat s)) with (2 * s)%nat by lia. replace (Z.to_nat (2 * Z.of_nat s + 2 * Z.of_nat l)) with (2 * (s + l))%nat by lia.
+    destruct (le_lt_dec (length p) s) as [Hs|Hs].
+    - rewrite (Nat.min_r (2 * s)) by lia. rewrite (Nat.min_r (2 * (s + l))) by lia. rewrite Nat.sub_diag. cbn [firstn of_bits].
+      rewrite skipn_all2 by lia. rewrite firstn_nil. reflexivity.
+    - rewrite (Nat.min_l (2 * s)) by lia. rewrite skipn_bits.
+      assert (Hk : length (skipn s p) = (length p - s)%nat) by apply skipn_length.
+      destruct (le_lt_dec (length p) (s + l)) as [Hl|Hl].
+      + rewrite (Nat.min_r (2 * (s + l))) by lia. replace (2 * length p - 2 * s)%nat with (2 * (length p - s))%nat by lia. rewrite firstn_bits, of_bits_bits.
+        rewrite !firstn_all2 by lia. reflexivity.
+      + rewrite (Nat.min_l (2 * (s + l))) by lia. replace (2 * (s + l) - 2 * s)%nat with (2 * l)%nat by lia. rewrite firstn_bits. apply of_bits_bits. }
+  split; [apply G|]. unfold py_PS_getitem. apply (G 1%nat).
+Qed.
+
 (* non-vacuity: the translated methods run *)
 Example gen_ps_runs : py_PS_sign (fresh [PX; PI]) (fresh [PY; PZ]) = FRet (0, 1) /\ py_PS_commutes_with (fresh [PX; PI]) (fresh [PY; PZ]) = FRet false /\
   fmap text (py_PS_xor (fresh [PX; PI]) (fresh [PY; PZ])) = FRet [PZ; PZ] /\ py_PS_xor (fresh [PX; PI]) (fresh [PX; PZ]) = FNone /\
@@ -309,5 +387,12 @@ Print Assumptions gen_tensor.
 Print Assumptions gen_tensor_text.
 Print Assumptions gen_set_substring.
 Print Assumptions gen_apply_edit.
+Print Assumptions gen_copy.
+Print Assumptions gen_add.
+Print Assumptions gen_expand.
+Print Assumptions gen_setitem.
+Print Assumptions gen_count.
+Print Assumptions gen_order.
+Print Assumptions gen_get_substring.
 Print Assumptions gen_ps_runs.
 Print Assumptions gen_edits_run.
